@@ -1,4 +1,6 @@
 import Rare.Proofs.C16Views
+import Rare.Proofs.C16Seam
+import Rare.Proofs.C16Dissect
 import Rare.Gen.C16
 /-!
 Property C16: the JSON views `{.}`, `{#}`, `{.#}` of a match are valid, faithful and deterministic.
@@ -553,5 +555,92 @@ example : (json false true [] [0, 3] [0x61, 0xff, 0x22]).toOption
     sanitize (lit "{\"0\": \"a" ++ [0xff] ++ lit "\\\"\"}") = lit "{\"0\": \"a" ++ fffd ++ lit "\\\"\"}" ∧
     sanitize [0x61, 0xe2, 0x82, 0x41, 0xc3, 0xa9, 0xed, 0xa0, 0x80]
       = [0x61] ++ fffd ++ fffd ++ [0x41, 0xc3, 0xa9] ++ fffd ++ fffd ++ fffd := by decide
+
+/-! ### seams: the same code modelled for C02 / C08 and for C12 -/
+
+/-- **The two hand models of `SliceSpaceExpressionContext.GetMatch` are one function**: C16's
+`getMatch` (this property) and C02's `C02.getMatch` (the one C08 ties, guard by guard, to the chain
+generated from the Go source: `c02_getMatch_eq_gen` in `Props/C08.lean`) agree on every index slice,
+line and index – results, empty answers and the slice-bounds panic alike.  Every theorem above about
+`json` is therefore a theorem about the `GetMatch` of C02/C08. -/
+theorem getMatch_models_agree (indices : List Int) (line : Bytes) (idx : Int) :
+    getMatch indices line idx = C02.getMatch line indices idx :=
+  getMatch_eq_c02 indices line idx
+
+/-- **The dissect name table assumed here is the one `CompileEx` builds** (C12's model of
+`dissect.CompileEx`, `Rare/Model/C12.lean`).  For EVERY pattern text and either mode:
+
+* if `CompileEx` succeeds with `d`, then `dissectNameTable` run on the compiled tokens – `(name, skip)`
+  in pattern order – succeeds with exactly `d.groupNames` (the Go map, same names, same numbers), these
+  names are the names of the capturing tokens in pattern order, and they are numbered `1 … groupCount`;
+* if `CompileEx` answers `ErrorKeyConflict`, the text is `p.render ++ tail` of a well-formed `p`
+  (+ optionally an unclosed token) and `dissectNameTable` answers `key conflict` on `p`'s tokens;
+* a token list on which `dissectNameTable` fails is never compiled. -/
+theorem dissect_name_table_is_compile (pat : Bytes) (ic : Bool) :
+    (∀ d, C12.compileEx pat ic = .ok d →
+        dissectNameTable (d.tokens.map tokenView) = .ok (castTable d.groupNames) ∧
+        d.groupNames.map (·.1) = (d.tokens.filter (fun t => !t.skip)).map (·.name) ∧
+        d.groupNames.map (·.2) = List.range' 1 d.groupCount) ∧
+    (C12.compileEx pat ic = .error .conflict →
+        ∃ (p : C12.Pat) (tail : Option Bytes), p.Shape ∧ pat = p.render ++ C12.tailText tail ∧
+          dissectNameTable (p.toks.map tokView) = .error "key conflict") ∧
+    (∀ (p : C12.Pat) (m : String), p.Shape → pat = p.render →
+        dissectNameTable (p.toks.map tokView) = .error m → ∃ e, C12.compileEx pat ic = .error e) := by
+  refine ⟨?_, ?_, ?_⟩
+  · intro d h
+    obtain ⟨p, hp, hs⟩ := C12.compiles_is_pattern h
+    subst hs
+    obtain ⟨he, hd⟩ := C12.compileEx_ok hp h
+    subst hd
+    have hn := nameTable_numbers p.toks
+    refine ⟨?_, ?_, hn.1⟩
+    · simp only [C12.compiled, tokenView_tokOf]
+      exact dissectNameTable_compiled he
+    · simp only [C12.compiled]
+      rw [hn.2]
+      simp [C12.tokOf, List.filter_map, Function.comp_def]
+  · intro h
+    obtain ⟨p, tail, hp, ht, hs⟩ := C12.parse_total pat
+    refine ⟨p, tail, hp, hs, ?_⟩
+    rw [hs, C12.compileEx_render ic p hp tail ht] at h
+    cases he : C12.specErrors tail.isSome p.toks [] with
+    | none => rw [he] at h; cases h
+    | some e =>
+      rw [he] at h
+      cases e <;> simp [C12.cerr] at h
+      exact dissectTableGo_of_conflict tail.isSome p.toks [] 0 [] (by simp) he
+  · intro p m hp hs hm
+    subst hs
+    rw [C12.compileEx_pat ic p hp]
+    cases he : C12.specErrors false p.toks [] with
+    | some e => exact ⟨_, rfl⟩
+    | none => rw [dissectNameTable_compiled he] at hm; cases hm
+
+/-- `json_valid_faithful_dissect` with the table taken from C12's `CompileEx` itself: whatever pattern
+text compiles (either mode), in any iteration order `σ` of its `SubexpNameTable()`, the JSON views
+are valid and faithful.  (`hn` is the Go typing fact "a slice length is an `int`".) -/
+theorem json_valid_faithful_compiled (named numbered : Bool) (pat : Bytes) (ic : Bool) (d : C12.Dissect)
+    (hc : C12.compileEx pat ic = .ok d) (σ : List (Bytes × Int)) (indices : List Int) (line out : Bytes)
+    (hσ : σ.Perm (castTable d.groupNames))
+    (hn : (d.tokens.length : Int) ≤ maxInt64) (hl : (indices.length : Int) ≤ maxInt64)
+    (h : json named numbered σ indices line = .ok out) :
+    ∃ ms es, parseObj out = some ms ∧
+      es.Perm (if named then expectedNamed (castTable d.groupNames) indices line else []) ∧
+      es.Pairwise (fun a b => bytesLe a.1 b.1 = true) ∧
+      membersDecode ms (es ++ (if numbered then expectedNumbered indices line else [])) = true :=
+  json_valid_faithful_dissect named numbered (d.tokens.map tokenView) (castTable d.groupNames) σ indices line out
+    ((dissect_name_table_is_compile pat ic).1 d hc).1 hσ (by simpa using hn) hl h
+
+/-! non-vacuity of the seam theorems: `k=%{x} %{?s};%{y}` compiles to the table `x ↦ 1, y ↦ 2`,
+`%{a} %{a}` is a key conflict in both models, and the two `GetMatch` models compute a group -/
+example : ∃ d, C12.compileEx (lit "k=%{x} %{?s};%{y}") false = .ok d ∧
+    castTable d.groupNames = [(lit "x", 1), (lit "y", 2)] ∧
+    (dissectNameTable (d.tokens.map tokenView)).toOption = some [(lit "x", 1), (lit "y", 2)] :=
+  ⟨C12.compiled false ⟨lit "k=", [⟨lit "x", lit " "⟩, ⟨lit "?s", lit ";"⟩, ⟨lit "y", []⟩]⟩, by rfl, by decide +kernel, by decide +kernel⟩
+example : C12.compileEx (lit "%{a} %{a}") false = .error .conflict ∧
+    (dissectNameTable [(lit "a", false), (lit "a", false)]).toBool = false := by
+  exact ⟨by rfl, by decide +kernel⟩
+example : (getMatch [0, 7, 0, 3, 4, 7] (lit "007 x\ny") 2).toOption = some (lit "x\ny") ∧
+    (C02.getMatch (lit "007 x\ny") [0, 7, 0, 3, 4, 7] 2).toOption = some (lit "x\ny") := by decide +kernel
 
 end Rare.C16
